@@ -36,6 +36,7 @@ var types = []string{"application/json", "text/plain", "application/xml", "appli
 const star = "*/*"
 
 var (
+	defForms   = []string{"plain", "params", "upper"}
 	opCtxKinds = []string{"nil", "background", "todo", "value", "cancelled"}
 	rtCtxKinds = []string{"nil", "default", "value", "cancelled", "deadline"}
 )
@@ -148,6 +149,17 @@ func renderHeader(form, t string, variant int) (present bool, value string) {
 	panic("form " + form)
 }
 
+// renderDefault spells Runtime.DefaultMediaType for the abstract (type, form).
+func renderDefault(t, form string) string {
+	switch form {
+	case "params":
+		return t + "; charset=utf-8"
+	case "upper":
+		return strings.ToUpper(t)
+	}
+	return t
+}
+
 // ---- sequential part: one Submit, one configuration ----------------------------
 
 func execPick(c *drv.Ctx, d M) bool {
@@ -187,7 +199,8 @@ func execPick(c *drv.Ctx, d M) bool {
 	if drv.Bool(d["star"]) {
 		rt.Consumers[star] = &taggedConsumer{id: star}
 	}
-	rt.DefaultMediaType = drv.Str(d["default"])
+	defaultMT := renderDefault(drv.Str(d["default"]), drv.Str(d["default_form"]))
+	rt.DefaultMediaType = defaultMT
 	rctx, rrel := mkRtCtx(rtCtx)
 	defer rrel()
 	rt.Context = rctx // nil for "nil"; New itself leaves context.Background()
@@ -238,7 +251,7 @@ func execPick(c *drv.Ctx, d M) bool {
 		ev["outcome"] = "err"
 		ct := value
 		if !present || value == "" {
-			ct = drv.Str(d["default"])
+			ct = defaultMT
 		}
 		// the message quotes the value with %q; values used here need no escaping except '"'
 		ev["err_names_ct"] = strings.Contains(err.Error(), ct) || strings.Contains(err.Error(), fmt.Sprintf("%q", ct))
@@ -431,6 +444,8 @@ func execConc(c *drv.Ctx, d M) bool {
 		sent, gotBody, gotHdr, consumer    string
 		wantConsumer, usedClient, wantClnt string
 		failed, panicked                   bool
+		kept                               oaruntime.ClientResponse // the reader keeps what it was handed
+		keptBody                           io.ReadCloser
 	}
 	results := make([]result, n)
 	finished := make(chan int, n)
@@ -461,6 +476,7 @@ func execConc(c *drv.Ctx, d M) bool {
 				if tc, ok := cons.(*taggedConsumer); ok {
 					res.consumer = tc.id
 				}
+				res.kept, res.keptBody = resp, resp.Body()
 				res.gotHdr = resp.GetHeader("X-Token")
 				b, err := io.ReadAll(resp.Body())
 				if err != nil {
@@ -511,7 +527,9 @@ func execConc(c *drv.Ctx, d M) bool {
 	ncalls := len(calls)
 	mu.Unlock()
 	for _, r := range results {
-		c.W.Event("caller", M{"i": r.i, "sent": r.sent, "got_body": r.gotBody, "got_hdr": r.gotHdr, "consumer_id": r.consumer,
+		// after every call has returned, the response each reader kept must still be its own
+		retained := r.kept != nil && r.kept.Code() == 200 && r.kept.GetHeader("X-Token") == r.sent && r.kept.Body() == r.keptBody
+		c.W.Event("caller", M{"i": r.i, "retained_ok": retained || r.failed, "sent": r.sent, "got_body": r.gotBody, "got_hdr": r.gotHdr, "consumer_id": r.consumer,
 			"want_consumer": r.wantConsumer, "used_client": byToken[r.sent], "want_client": r.wantClnt,
 			"failed": r.failed, "panic": r.panicked})
 	}
@@ -525,6 +543,10 @@ func execute(c *drv.Ctx, d M) bool {
 		return execPick(c, d)
 	case "conc":
 		return execConc(c, d)
+	case "retain":
+		return execRetain(c, d)
+	case "clientlat":
+		return execClientLat(c, d)
 	}
 	panic("unknown case kind")
 }
@@ -568,12 +590,18 @@ func generate(c *drv.Ctx) {
 						v = gk
 						gk++
 					}
-					c.Case(M{"kind": "pick", "registry": reg, "star": st, "default": def,
-						"header": M{"form": h.form, "t": h.t}, "variant": v, "status": statuses[idx%5],
-						"op_client": idx%2 == 1, "op_ctx": opCtxKinds[(idx/2)%5], "rt_ctx": rtCtxKinds[(idx/10)%5],
-						"rt_client": []string{"transport", "withclient"}[(idx/8)%2], "body_len": idx % 7})
+					dforms := []string{defForms[idx%3]}
+					if h.form == "absent" || h.form == "empty" {
+						dforms = defForms // the default type decides: every spelling of it
+					}
+					for _, df := range dforms {
+						c.Case(M{"kind": "pick", "registry": reg, "star": st, "default": def, "default_form": df,
+							"header": M{"form": h.form, "t": h.t}, "variant": v, "status": statuses[idx%5],
+							"op_client": idx%2 == 1, "op_ctx": opCtxKinds[(idx/2)%5], "rt_ctx": rtCtxKinds[(idx/10)%5],
+							"rt_client": []string{"transport", "withclient"}[(idx/8)%2], "body_len": idx % 7})
+						npick++
+					}
 					idx++
-					npick++
 				}
 			}
 		}
@@ -585,7 +613,7 @@ func generate(c *drv.Ctx) {
 				for _, rc := range []string{"transport", "withclient"} {
 					for _, s := range statuses {
 						for _, h := range []hd{{"plain", types[0]}, {"absent", types[0]}, {"params", types[3]}} {
-							c.Case(M{"kind": "pick", "registry": []string{types[0], types[1]}, "star": s%2 == 0, "default": types[1],
+							c.Case(M{"kind": "pick", "registry": []string{types[0], types[1]}, "star": s%2 == 0, "default": types[1], "default_form": defForms[s%3],
 								"header": M{"form": h.form, "t": h.t}, "variant": s, "status": s, "op_client": oc, "op_ctx": ox,
 								"rt_ctx": rx, "rt_client": rc, "body_len": 3})
 							npick++
@@ -611,7 +639,7 @@ func generate(c *drv.Ctx) {
 			reg = []string{}
 		}
 		h := hdrs[c.Rng.Intn(len(hdrs))]
-		c.Case(M{"kind": "pick", "registry": reg, "star": c.Rng.Intn(2) == 0, "default": types[c.Rng.Intn(len(types))],
+		c.Case(M{"kind": "pick", "registry": reg, "star": c.Rng.Intn(2) == 0, "default": types[c.Rng.Intn(len(types))], "default_form": defForms[c.Rng.Intn(3)],
 			"header": M{"form": h.form, "t": h.t}, "variant": c.Rng.Intn(84), "status": 100 + c.Rng.Intn(500),
 			"op_client": c.Rng.Intn(2) == 0, "op_ctx": opCtxKinds[c.Rng.Intn(5)], "rt_ctx": rtCtxKinds[c.Rng.Intn(5)],
 			"rt_client": []string{"transport", "withclient"}[c.Rng.Intn(2)], "body_len": c.Rng.Intn(3000)})
@@ -659,4 +687,6 @@ func generate(c *drv.Ctx) {
 		}
 	}
 	c.Extra["conc_cases"] = nconc
+	generateRetain(c, thorough)
+	generateClientLat(c, thorough)
 }
